@@ -339,11 +339,14 @@ func isJSONSource(p *Prog, v ssa.Value, depth int) bool {
 		return isJSONSource(p, x.X, depth+1)
 	case *ssa.Extract:
 		if call, ok := x.Tuple.(*ssa.Call); ok && x.Index == 0 {
-			if cf := calleeFunc(&call.Call); cf != nil && cf.Pkg() != nil && cf.Pkg().Path() == "encoding/json" && cf.Name() == "Marshal" {
+			if cf := calleeFunc(&call.Call); cf != nil && cf.Pkg() != nil && cf.Pkg().Path() == "encoding/json" && (cf.Name() == "Marshal" || cf.Name() == "MarshalIndent") {
 				return true
 			}
 		}
 	case *ssa.Phi:
+		if len(x.Edges) == 0 {
+			return false
+		}
 		for _, e := range x.Edges {
 			if !isJSONSource(p, e, depth+1) {
 				return false
@@ -351,6 +354,12 @@ func isJSONSource(p *Prog, v ssa.Value, depth int) bool {
 		}
 		return len(x.Edges) > 0
 	case *ssa.Call:
+		if cf := calleeFunc(&x.Call); cf != nil && cf.Pkg() != nil && cf.Pkg().Path() == "strconv" {
+			switch cf.Name() {
+			case "Itoa", "FormatInt", "FormatUint", "FormatBool", "AppendInt", "AppendUint", "AppendBool":
+				return true // integer and boolean literals are JSON
+			}
+		}
 		sf := x.Call.StaticCallee()
 		if sf == nil || !p.isRepoFn(sf) || len(sf.Blocks) == 0 {
 			return false
